@@ -322,7 +322,14 @@ impl<'a, 'tcx> Ctx<'a, 'tcx> {
             Rvalue::UnaryOp(op, a) => {
                 J::obj(vec![("un", J::s(format!("{:?}", op))), ("x", self.operand(a))])
             }
-            Rvalue::Discriminant(p) => J::obj(vec![("discr", self.place(p))]),
+            Rvalue::Discriminant(p) => {
+                let pty = p.ty(self.body, tcx).ty;
+                let mut o = vec![("discr", self.place(p))];
+                if let ty::Adt(def, _) = pty.kind() {
+                    o.push(("adt", J::s(dp(tcx, def.did()))));
+                }
+                J::obj(o)
+            }
             Rvalue::Aggregate(kind, ops) => {
                 let mut o: Vec<(String, J)> = Vec::new();
                 match &**kind {
